@@ -8,7 +8,7 @@ import re
 
 from ..astutil import call_attr, calls_in, guard_facts, unparse, walk_local
 from ..cfg import CFG
-from ..dataflow import resolved_text
+from ..dataflow import reaching_defs, resolved_text
 from ..report import Finding, Report
 from ..srcindex import AnalysisError, Index
 from .c15 import _str_list
@@ -304,64 +304,164 @@ def check_constants(idx: Index, rep: Report) -> None:
             r.fail(f.fq, Finding("C22.R4", f.fq, "fcvt-range", f"`fcvt.d.w` reads the register as a signed 32-bit integer, but the guard is {facts[-1:] or '(none)'}: whole numbers in [2**31, 2**32) would be materialised as value - 2**32", f"{LOW}:{c.lineno}"))
 
 
+def _eval_index_pred(e: ast.AST, var: str, universe=range(0, 32)) -> set[int] | None:
+    """Indices in `universe` for which a boolean expression over the integer `var` holds (comparisons and chains,
+    `in` tuples / sets / range(...), and / or / not); None when the expression has another shape."""
+    def val(x, i):
+        if unparse(x) == var:
+            return i
+        if isinstance(x, ast.Constant) and isinstance(x.value, int):
+            return x.value
+        raise ValueError
+
+    def cont(x):
+        if isinstance(x, (ast.Tuple, ast.List, ast.Set)):
+            return {k.value for k in x.elts if isinstance(k, ast.Constant)} if all(isinstance(k, ast.Constant) for k in x.elts) else None
+        if isinstance(x, ast.Call) and unparse(x.func) == "range" and all(isinstance(a_, ast.Constant) for a_ in x.args):
+            return set(range(*[a_.value for a_ in x.args]))
+        return None
+
+    def ev(x, i):
+        if isinstance(x, ast.BoolOp):
+            vs = [ev(v_, i) for v_ in x.values]
+            return all(vs) if isinstance(x.op, ast.And) else any(vs)
+        if isinstance(x, ast.UnaryOp) and isinstance(x.op, ast.Not):
+            return not ev(x.operand, i)
+        if isinstance(x, ast.Compare):
+            left = x.left
+            for op, right in zip(x.ops, x.comparators):
+                if isinstance(op, (ast.In, ast.NotIn)):
+                    c_ = cont(right)
+                    if c_ is None:
+                        raise ValueError
+                    ok = (val(left, i) in c_) == isinstance(op, ast.In)
+                else:
+                    a_, b_ = val(left, i), val(right, i)
+                    ok = {ast.Lt: a_ < b_, ast.LtE: a_ <= b_, ast.Gt: a_ > b_, ast.GtE: a_ >= b_, ast.Eq: a_ == b_, ast.NotEq: a_ != b_}[type(op)]
+                if not ok:
+                    return False
+                left = right
+            return True
+        raise ValueError
+
+    try:
+        return {i for i in universe if ev(e, i)}
+    except (ValueError, KeyError):
+        return None
+
+
+S_INDICES = {8, 9} | set(range(18, 28))  # s0/fp, s1, s2-s11 (and fs0, fs1, fs2-fs11 in the float file)
+
+
 def check_prologue(idx: Index, rep: Report) -> None:
     r = rep.rule("C22.R5", "prologue and epilogue iterate the same register collection with the same offset progression, sp is adjusted by -size / +size, every return gets an epilogue", floor=4)
     f = idx.func(PE, "PrologueEpilogueInsertion._process_function")
     t = unparse(f.node)
-    loops = [w for w in walk_local(f.node) if isinstance(w, ast.For) and unparse(w.iter) == "used_callee_preserved_registers"]
-    if len(loops) != 2:
-        r.fail(f.fq + ":loops", Finding("C22.R5", f.fq, "save-restore-collections", f"expected the save loop and the restore loop to iterate `used_callee_preserved_registers`; found {len(loops)} such loops", f.loc))
+    cfg = CFG(f.node)
+    from ..setbuild import describe as describe_set
+
+    def op_loop(names: set[str]):
+        ls = [w for w in walk_local(f.node) if isinstance(w, ast.For) and any(call_attr(c) in names for c in calls_in(w)) and not any(isinstance(x, ast.For) and x is not w and any(call_attr(c) in names for c in calls_in(x)) for x in ast.walk(w))]
+        return ls
+
+    saves, restores = op_loop({"SwOp", "FSdOp"}), op_loop({"LwOp", "FLdOp"})
+    if len(saves) != 1 or len(restores) != 1:
+        raise AnalysisError(f"{f.fq}: save loop (sw / fsd) and restore loop (lw / fld) not found ({len(saves)}/{len(restores)})")
+    save, restore = saves[0], restores[0]
+    c1, c2 = resolved_text(cfg, save.iter, cfg.node_of(save)), resolved_text(cfg, restore.iter, cfg.node_of(restore))
+    if c1 != c2:
+        r.fail(f.fq + ":loops", Finding("C22.R5", f.fq, "save-restore-collections", f"the save loop iterates `{c1}` and the restore loop `{c2}`: registers are saved and restored from different (reg, slot) assignments", f.loc))
         return
-    save, restore = loops
 
-    def shape(w: ast.For, store: bool):
-        tx = unparse(w)
-        ints = "SwOp" if store else "LwOp"
-        flts = "FSdOp" if store else "FLdOp"
-        return (f"isinstance(reg, IntRegisterType)" in tx and ints in tx and flts in tx and "immediate=offset" in tx and "offset += get_register_size(reg)" in tx and "rs1=sp_register" in tx)
+    def signature(w: ast.For, ints: str, flts: str):
+        """(how the slot offset of the current register is obtained, register-class dispatch)"""
+        tgt_names = [y.id for y in ast.walk(w.target) if isinstance(y, ast.Name)]
+        reg = tgt_names[0]
+        imms = set()
+        kinds = {}
+        for c in calls_in(w):
+            if call_attr(c) in (ints, flts):
+                kw = {k.arg: unparse(k.value) for k in c.keywords}
+                imms.add(kw.get("immediate", unparse(c.args[2]) if len(c.args) > 2 else "?"))
+                facts = {(unparse(t_), p_) for t_, p_ in guard_facts(f.node, c)}
+                kinds[call_attr(c)] = ("int" if (f"isinstance({reg}, IntRegisterType)", True) in facts or (f"isinstance({reg}, FloatRegisterType)", False) in facts else "float" if (f"isinstance({reg}, IntRegisterType)", False) in facts or (f"isinstance({reg}, FloatRegisterType)", True) in facts else "?")
+        if len(imms) != 1:
+            return None
+        imm = next(iter(imms))
+        if imm in tgt_names[1:]:
+            how = ("slot-of-pair", tgt_names.index(imm))
+        else:
+            init = [unparse(v_) for _, v_ in reaching_defs(cfg, imm, cfg.node_of(w)) if v_ is not None] if re.fullmatch(r"\w+", imm) else []
+            incs = [unparse(s_.value).replace(reg, "_r") for s_ in walk_local(w) if isinstance(s_, ast.AugAssign) and isinstance(s_.op, ast.Add) and unparse(s_.target) == imm]
+            how = ("running", tuple(sorted(set(init))), tuple(incs))
+        return how, (kinds.get(ints), kinds.get(flts))
 
-    if shape(save, True) and shape(restore, False):
-        r.ok(f.fq + ":loops", f"{f.loc} sw/fsd and lw/fld over the same ordered set with the same offsets")
+    s1, s2 = signature(save, "SwOp", "FSdOp"), signature(restore, "LwOp", "FLdOp")
+    if s1 is None or s2 is None:
+        raise AnalysisError(f"{f.fq}: slot offsets of the save / restore loops not understood")
+    if s1 == s2 and s1[1] == ("int", "float") and (s1[0][0] == "slot-of-pair" or (s1[0][1] == ("0",) and len(s1[0][2]) == 1)):
+        r.ok(f.fq + ":loops", f"{f.loc} sw/fsd and lw/fld over `{c1}` with the same slots ({s1[0][0]})")
     else:
-        r.fail(f.fq + ":loops", Finding("C22.R5", f.fq, "save-restore-shape", "the save and restore loops no longer mirror each other (register class -> store/load kind, immediate=offset, offset += size)", f.loc))
-    adds = re.findall(r"riscv\.AddiOp\(sp_register, (-?\w+), rd=Registers\.SP\)", t)
-    if adds == ["-stack_size", "stack_size"] and "stack_size = sum((get_register_size(r) for r in used_callee_preserved_registers))" in t:
+        r.fail(f.fq + ":loops", Finding("C22.R5", f.fq, "save-restore-shape", f"the save and restore loops do not mirror each other: slot / class dispatch {s1} vs {s2} (each register must be stored to and loaded from the same offset with the instruction of its class, offsets starting at 0 and advancing by the register size)", f.loc))
+    # stack pointer adjustments
+    adj = [c for c in calls_in(f.node) if call_attr(c) == "AddiOp" and len(c.args) >= 2 and any(k.arg == "rd" and unparse(k.value) == "Registers.SP" for k in c.keywords)]
+    amounts = [resolved_text(cfg, c.args[1], cfg.node_of(c)) for c in adj]
+    neg = [a_ for a_ in amounts if a_.startswith("-")]
+    pos = [a_ for a_ in amounts if not a_.startswith("-")]
+    if len(neg) == 1 and len(pos) == 1 and (neg[0][1:].strip("()") == pos[0].strip("()")):
         r.ok(f.fq + ":sp", f"{f.loc} sp -= size in the prologue, sp += size in every epilogue")
     else:
-        r.fail(f.fq + ":sp", Finding("C22.R5", f.fq, "sp-adjustment", f"stack pointer adjustments are {adds}; expected -stack_size then +stack_size with stack_size the sum of the saved register sizes", f.loc))
-    if "for block in func.body.blocks:" in t and "if not isinstance(ret_op, riscv_func.ReturnOp):\n            continue" in t.replace("    " * 0, "") or ("for block in func.body.blocks" in t and "isinstance(ret_op, riscv_func.ReturnOp)" in t):
+        r.fail(f.fq + ":sp", Finding("C22.R5", f.fq, "sp-adjustment", f"stack pointer adjustments are {amounts}; expected -S in the prologue and +S in the epilogue for the same S", f.loc))
+    if "for block in func.body.blocks" in t and "isinstance(ret_op, riscv_func.ReturnOp)" in t:
         r.ok(f.fq + ":returns", f"{f.loc} an epilogue before the ReturnOp of every block")
     else:
         r.fail(f.fq + ":returns", Finding("C22.R5", f.fq, "return-without-epilogue", "not every return gets an epilogue", f.loc))
-    if "if res.type in Registers.S or res.type in Registers.FS" in t:
-        r.ok(f.fq + ":set", f"{f.loc} saved set = results typed with s0-s11 / fs0-fs11")
-    else:
-        r.fail(f.fq + ":set", Finding("C22.R5", f.fq, "saved-set", "the set of saved registers is no longer computed from results in Registers.S / Registers.FS", f.loc))
-    # the clobber scan reaches every operation nested in the function (loop bodies are regions until they are lowered)
-    from ..setbuild import describe as describe_set
-
-    cfg0 = CFG(f.node)
-    src = next((s_ for s_ in walk_local(f.node) if isinstance(s_, ast.Assign) and unparse(s_.targets[0]) == "used_callee_preserved_registers"), None)
-    if src is None:
-        raise AnalysisError(f"{f.fq}: computation of used_callee_preserved_registers not found")
-    val = src.value.args[0] if isinstance(src.value, ast.Call) and unparse(src.value.func) in ("OrderedSet", "set", "tuple", "list", "frozenset") and src.value.args else src.value
-    dsc = describe_set(f.node, cfg0, val, cfg0.node_of(src))
-    iters = [it for ad in dsc.adds for it in ad.iters]
-    op_sources = [it_ for tg, it_ in iters if not it_.endswith(".results") and not re.fullmatch(r"\w+\.ops", it_) or re.fullmatch(r"\w+\.ops", it_)]
+    # which registers are saved: results of any nested operation whose type is one of s0-s11 / fs0-fs11
+    dsc = describe_set(f.node, cfg, save.iter, cfg.node_of(save))
+    scans = [a_ for a_ in dsc.adds if a_.iters and re.search(r"\.walk\(|\.ops$|\.blocks", a_.iters[0][1])]
+    if dsc.unknown or not scans:
+        # the collection may be a derived list of (reg, slot) pairs: follow the collection it is built from
+        for st_ in walk_local(f.node):
+            if isinstance(st_, (ast.Assign, ast.AnnAssign)):
+                for tg_ in (st_.targets if isinstance(st_, ast.Assign) else [st_.target]):
+                    if isinstance(tg_, ast.Name):
+                        d_ = describe_set(f.node, cfg, ast.Name(id=tg_.id, ctx=ast.Load()), cfg.node_of(save))
+                        sc_ = [a_ for a_ in d_.adds if a_.iters and re.search(r"\.walk\(|\.ops$|\.blocks", a_.iters[0][1])]
+                        if sc_ and not d_.unknown:
+                            dsc, scans = d_, sc_
+    if not scans:
+        raise AnalysisError(f"{f.fq}: how the set of saved registers is collected was not understood")
+    iters = [it for ad in scans for it in ad.iters]
     recursive = any(re.fullmatch(r"func(\.body)?\.walk\(.*\)", it_) for _, it_ in iters)
-    if not iters:
-        raise AnalysisError(f"{f.fq}: how used_callee_preserved_registers is collected was not understood")
+    src_line = save.lineno
     if recursive:
         r.ok(f.fq + ":scan", f"{f.loc} clobber scan over func.walk()")
     else:
-        r.fail(f.fq + ":scan", Finding("C22.R5", f.fq, "clobber-scan-not-recursive", f"the callee-saved registers written by the function are collected over {[it_ for _, it_ in iters]}, not over func.walk(): a register written only inside a nested region (riscv_scf.for body, frep body) is neither saved nor restored", f"{f.module.relpath}:{src.lineno}"))
-    # offsets restart at 0 in both loops
-    cfg = CFG(f.node)
-    zeros = [s for s in walk_local(f.node) if isinstance(s, ast.Assign) and unparse(s) == "offset = 0"]
-    if len(zeros) >= 2:
-        r.ok(f.fq + ":offset0", None)
+        r.fail(f.fq + ":scan", Finding("C22.R5", f.fq, "clobber-scan-not-recursive", f"the callee-saved registers written by the function are collected over {[it_ for _, it_ in iters]}, not over func.walk(): a register written only inside a nested region (riscv_scf.for body, frep body) is neither saved nor restored", f"{f.module.relpath}:{src_line}"))
+    facts = scans[0].facts
+    member = [t_ for t_, p_ in facts if p_ and re.fullmatch(r"(.+) in Registers\.S or \1 in Registers\.FS|(.+) in Registers\.FS or \2 in Registers\.S", t_)]
+    if member:
+        r.ok(f.fq + ":set", f"{f.loc} saved set = results typed with s0-s11 / fs0-fs11")
     else:
-        r.fail(f.fq + ":offset0", Finding("C22.R5", f.fq, "offset-reset", "offset is not reset to 0 before both the save and the restore sequence", f.loc))
+        # a helper predicate on the register index: evaluate it over all indices
+        preds = [c_ for t_, p_ in facts if p_ for c_ in ast.walk(ast.parse(t_, mode="eval")) if isinstance(c_, ast.Call) and isinstance(c_.func, ast.Name) and idx.try_func(PE, c_.func.id) is not None]
+        decided = False
+        for c_ in preds:
+            h = idx.try_func(PE, c_.func.id)
+            rets_ = [x for x in walk_local(h.raw_node) if isinstance(x, ast.Return) and x.value is not None]
+            hcfg = CFG(h.raw_node)
+            for rt_ in rets_:
+                names_ = {unparse(y) for c2_ in ast.walk(rt_.value) if isinstance(c2_, ast.Compare) for y in [c2_.left] + c2_.comparators if isinstance(y, (ast.Name, ast.Attribute))}
+                for v_ in sorted(names_):
+                    got = _eval_index_pred(rt_.value, v_)
+                    if got is not None and got:
+                        decided = True
+                        if got == S_INDICES:
+                            r.ok(f.fq + ":set", f"{f.loc} saved set decided by `{unparse(rt_.value)}` = indices of s0-s11")
+                        else:
+                            r.fail(f.fq + ":set", Finding("C22.R5", f.fq, "saved-set", f"`{unparse(rt_.value)}` holds for the register indices {sorted(got)}; the callee-saved registers s0-s11 / fs0-fs11 have the indices {sorted(S_INDICES)}: {sorted(S_INDICES - got)} are not saved", f"{h.module.relpath}:{rt_.lineno}"))
+        if not decided:
+            raise AnalysisError(f"{f.fq}: the test that decides which written registers are callee-saved was not understood ({sorted(t_ for t_, _ in facts)[:3]})")
 
 
 CANON = "xdsl/transforms/canonicalization_patterns/riscv.py"
